@@ -290,9 +290,13 @@ void vh_count(const char *name, long n)
         if (!strcmp(s->extra_name[i], name)) { s->extra[i] += n; return; }
     }
 }
+static int quiet;
+void vh_quiet(int q) { quiet = q; }
+const char *vh_only_key(void) { return opt_only; }
+void vh_scratch_path(char *buf, size_t n, const char *suffix) { snprintf(buf, n, "%s.w%d.%s", opt_out, W, suffix); }
 void vh_violation(const char *site, const char *fmt, ...)
 {
-    if (!SH) return;
+    if (!SH || quiet) return;
     struct wslot *s = &SH->w[W];
     char key[800], det[2048], st[320];
     cur_key(key, sizeof key);
@@ -309,7 +313,7 @@ void vh_note(const char *fmt, ...)
 }
 
 /* read the tail of the executor's stderr to classify a sanitizer abort */
-static void classify_crash(const char *errfile, int sig, char *cls, size_t ncls, char *detail, size_t ndet)
+void vh_classify_crash(const char *errfile, int sig, char *cls, size_t ncls, char *detail, size_t ndet)
 {
     snprintf(cls, ncls, "signal-%s", sig == SIGSEGV ? "SIGSEGV" : sig == SIGFPE ? "SIGFPE" : sig == SIGABRT ? "SIGABRT" :
              sig == SIGBUS ? "SIGBUS" : sig == SIGKILL ? "SIGKILL" : "other");
@@ -376,8 +380,8 @@ static int run_worker(void)
         char key[800], cls[96], det[2048], st[320];
         cur_key(key, sizeof key);
         if (hung) { snprintf(cls, sizeof cls, "hang"); snprintf(det, sizeof det, "no progress for %.0f s", opt_case_timeout); }
-        else if (WIFSIGNALED(status)) classify_crash(errfile, WTERMSIG(status), cls, sizeof cls, det, sizeof det);
-        else { classify_crash(errfile, 0, cls, sizeof cls, det, sizeof det); if (!strncmp(cls, "signal", 6)) snprintf(cls, sizeof cls, "exit-%d", WEXITSTATUS(status)); }
+        else if (WIFSIGNALED(status)) vh_classify_crash(errfile, WTERMSIG(status), cls, sizeof cls, det, sizeof det);
+        else { vh_classify_crash(errfile, 0, cls, sizeof cls, det, sizeof det); if (!strncmp(cls, "signal", 6)) snprintf(cls, sizeof cls, "exit-%d", WEXITSTATUS(status)); }
         snprintf(st, sizeof st, "site:%s:%s", s->op[0] ? s->op : "-", cls);
         out_line("V", key, st, det);
         s->violations++; s->restarts++;
@@ -407,7 +411,8 @@ int vh_main(int argc, char **argv, vh_engine_fn fn)
     }
     if (!opt_out) { fprintf(stderr, "--out required\n"); return 2; }
     if (opt_only) NW = 1;
-    if (NW < 1) NW = 1; if (NW > MAXW) NW = MAXW;
+    if (NW < 1) NW = 1;
+    if (NW > MAXW) NW = MAXW;
     SH = mmap(NULL, sizeof *SH, PROT_READ | PROT_WRITE, MAP_SHARED | MAP_ANONYMOUS | MAP_NORESERVE, -1, 0);
     if (SH == MAP_FAILED) { perror("mmap"); return 2; }
     SH->total_groups = -1;
